@@ -95,6 +95,7 @@ var (
 	fSub       = flag.Bool("subprocess", false, "with -shrink: one process per candidate (needed for race reports)")
 	fBudget    = flag.Int("budget", 1500, "with -shrink: execution budget")
 	fSamples   = flag.Int("samples", 2, "rendered sample runs to keep")
+	fRefEvery  = flag.Int("refrecycle", 16, "C13: replace the reference process by a new one after this many runs (0 = never)")
 	fRefSrv    = flag.Bool("refserver", false, "serve reference answers on stdin/stdout (started by a C13 worker)")
 	fNoRef     = flag.Bool("noref", false, "compute references in-process")
 	fRunList   = flag.String("runlist", "", "execute exactly these run indices, in this order, in this one process (replay of a process history)")
@@ -190,7 +191,7 @@ func env(thorough bool, keep bool) *props.Env {
 			// by position in this process's sequence of runs, so that a
 			// replay of the sequence (-runlist) meets the same reference
 			// processes of the same age
-			refClient.RecycleEvery = 8
+			refClient.RecycleEvery = *fRefEvery
 		}
 		e.Ref = refClient.Ask
 	}
